@@ -23,7 +23,7 @@ fn held(sbj: &Subject<'static, u8>) -> usize {
 macro_rules! sbj_h {
   ($name:ident, $rev:expr, |$sbj:ident, $l1:ident, $l2:ident| $body:block) => {
     #[kani::proof]
-    #[kani::unwind(4)]
+    #[kani::unwind(3)]
     fn $name() {
       crate::verif_sync::REVERSE_ITER.store($rev, std::sync::atomic::Ordering::Relaxed);
       let $sbj: Subject<'static, u8> = Subject::new();
@@ -174,7 +174,7 @@ sbj_h!(k_subject1_resubscribe, false, |sbj, l1, l2| {
 
 // re-entrancy: an observer unsubscribes itself from inside its own next callback while the subject is broadcasting
 #[kani::proof]
-#[kani::unwind(4)]
+#[kani::unwind(3)]
 fn k_subject_reenter__unsub_in_next() {
   let sbj: Subject<'static, u8> = Subject::new();
   let l1 = Log::new();
